@@ -131,7 +131,8 @@ Inductive dstate := DProc | DShut (s : shstate) | DShutIo | DDone.
 Record cfg := mkCfg {
   v5 : bool; max_qos : N; rmax : N; amax : N; lcap : N; pmode : N;
   role : N;                          (* 0 = server, 1 = client *)
-  route : bool }.                    (* client: ClientRouter with resources t1, t2 *)
+  route : bool;                      (* client: ClientRouter with resources t1, t2 *)
+  zse : bool }.                      (* v5 server: the CONNECT asked for session expiry 0 (Flags::ZERO_SES_EXPIRY) *)
 
 Record pst := mkPst {               (* protocol state: dispatcher.rs Inner / PublishInfo, shared flags *)
   inflight : list N; publishes : list N; pubrel : list N; aliases : list (N * N);
@@ -483,7 +484,8 @@ Definition body5 (p : pkt) (s : st) : st * outcome :=
   | KPing => (s, OCtl (5, 0))
   | KDisconnect _ se =>
     let s1 := up_p (p_drecv true) s in
-    if 0 <? se then (s1, proto_err 130)
+    (* [MQTT-3.14.2-22]: a non-zero Session Expiry Interval in DISCONNECT only when CONNECT had a non-zero one *)
+    if (0 <? se) && zse (c_ s) then (s1, proto_err 130)
     else
       let s2 := up_p (p_dsent true) s1 in
       let s3 := if is_closed s2 then s2 else io_close s2 in
@@ -1329,7 +1331,7 @@ Definition init_st (is5 : bool) (cf : list N) : st :=
                  (if is5 then (if a 1%nat =? 0 then 16 else a 1%nat) else 0)
                  (a 2%nat)
                  (if is5 then 0 else a 3%nat)
-                 (a 4%nat) 0 false in
+                 (a 4%nat) 0 false (a 5%nat =? 0) in
   mkSt c
        (mkPst [] [] [] [] false false)
        (mkBst [] 0 None true None 0 None None [] [] None)
@@ -1359,7 +1361,7 @@ Definition init_st_cli (is5 : bool) (cf : list N) : st :=
                  (if is5 then (if a 0%nat =? 0 then 65535 else a 0%nat) else 0)
                  16
                  (if is5 then 0 else (if a 0%nat =? 0 then 16 else a 0%nat))
-                 1 1 (a 1%nat =? 1) in
+                 1 1 (a 1%nat =? 1) true in
   mkSt c (p_ s) (b_ s) (i_ s) (s_ s) (l_ s) (q_ s).
 
 Definition run_cli (is5 : bool) (c : list (list N)) : list (list N) :=
